@@ -895,6 +895,45 @@ pub fn mixed(ctx : &Ctx, out : &mut Out)
     }
 }
 
+
+/// A path changes its role: it is a target of a rule, gets built and cleaned (so ruler remembers it and the cache
+/// holds it), then the rule is dropped from the rules file while another rule still lists the path as a source — it is
+/// now an undeclared plain source that does not exist. Ruler must report the missing file and create nothing there.
+/// Later the rule comes back. All monitors (C09 scope, C04 failure reporting, C01) and the model comparison apply.
+pub fn dropped_rule(ctx : &Ctx, out : &mut Out)
+{
+    let mut rng = Rng::new(ctx.seed).fork(909);
+    let n = if ctx.thorough { 1500 } else { 80 };
+    for i in 0..n
+    {
+        let mut r = rng.fork(i as u64);
+        let sc = scenario::gen_scenario(&mut r, &GenParams{max_rules : if ctx.thorough { 6 } else { 4 }, flavor : Flavor::Plain});
+        if !sc.well_formed() { continue; }
+        // a rule some other rule depends on
+        let producers : Vec<usize> = (0..sc.rules.len()).filter(|j| sc.rules.iter().any(|o| o.sources.iter().any(|s| sc.rules[*j].targets.contains(s)))).collect();
+        if producers.is_empty() { out.count("dropped:no-dependency"); continue; }
+        let j = *r.pick(&producers);
+        let mut without = sc.clone();
+        without.rules.remove(j);
+        if !without.well_formed() { continue; }
+        let mut ops : Vec<Op> = vec![Op::Write(RULES_PATH.to_string(), sc.render().into_bytes())];
+        let mut leaves : BTreeSet<String> = BTreeSet::new();
+        for rule in &sc.rules { for s in &rule.sources { if sc.owner(s).is_none() { leaves.insert(s.clone()); } } }
+        for l in leaves.iter() { ops.push(Op::Write(l.clone(), r.pick(scenario::CONTENTS).as_bytes().to_vec())); }
+        ops.push(Op::Build(None));
+        if r.chance(1, 3) { let l : Vec<String> = leaves.iter().cloned().collect(); ops.push(Op::Write(r.pick(&l).clone(), b"edited".to_vec())); ops.push(Op::Build(None)); }
+        ops.push(Op::Clean(if r.chance(2, 3) { None } else { Some(r.pick(&sc.rules[j].targets).clone()) }));
+        ops.push(Op::Write(RULES_PATH.to_string(), without.render().into_bytes()));
+        ops.push(Op::Build(None));
+        if r.chance(1, 2) { ops.push(Op::Build(None)); }
+        ops.push(Op::Write(RULES_PATH.to_string(), sc.render().into_bytes()));
+        ops.push(Op::Build(None));
+        out.count("dropped:histories");
+        let (obs, _) = run_fixed(out, "dropped", false, 1_000_000, &ops, true, &Policy::Serial, true);
+        emit_case(out, false, 1_000_000, &ops, &obs, true);
+    }
+}
+
 /// exchanged and restored leaf values (see swap_ops), with all monitors, mostly under the coarse clock; paired runs
 /// (with / without the saved table) as in `shortcut`
 pub fn swap(ctx : &Ctx, out : &mut Out)
@@ -969,6 +1008,15 @@ pub fn contradiction(ctx : &Ctx, out : &mut Out)
             }
         }
         let culprit = match sc.rules.iter().position(|rule| rule.script.iter().any(|l| l.contains("@undeclared"))) { Some(k) => k, None => continue };
+        // in a third of the cases an unrelated rule fails in every build: the culprit's first execution must be
+        // recorded all the same ("builds of other rules are unaffected" cuts both ways)
+        let with_failing_neighbour = r.chance(1, 3);
+        if with_failing_neighbour
+        {
+            let leaf = sc.rules.iter().flat_map(|rule| rule.sources.iter()).find(|s| sc.owner(s).is_none()).cloned().unwrap_or("a".to_string());
+            sc.rules.push(RuleSpec{targets : vec!["zz".to_string()], sources : vec![leaf], script : vec!["fail".to_string()], raw_command : None});
+            out.count("with-failing-neighbour");
+        }
         let driver = Driver::new(ClockMode::Fine, 1_000_000);
         let mut ops : Vec<Op> = vec![];
         let mut obs : Vec<String> = vec![];
@@ -983,7 +1031,8 @@ pub fn contradiction(ctx : &Ctx, out : &mut Out)
         let u0 : Vec<u8> = if r.chance(1, 3) { vec![] } else { b"U0".to_vec() };
         user(Op::Write("undeclared".to_string(), u0.clone()), &mut ops, &mut obs);
         let first = invoke(Op::Build(None), &mut ops, &mut obs);
-        if !first.verdict.is_ok() { out.count("first-build-not-ok"); emit_case(out, false, 1_000_000, &ops, &obs, false); continue; }
+        let culprit_built = sc.rules[culprit].targets.iter().all(|t| first.after.files.contains_key(t)) && first.banners.iter().any(|(b, p)| b == "Built" && sc.rules[culprit].targets.contains(p));
+        if !first.verdict.is_ok() && !(with_failing_neighbour && culprit_built) { out.count("first-build-not-ok"); emit_case(out, false, 1_000_000, &ops, &obs, false); continue; }
         let recorded = disk_files(&first.after);
 
         // the undeclared input changes; a re-execution of the culprit is forced
